@@ -42,6 +42,13 @@ def gb(x):
     return [x, "gb"]
 
 
+@memento_function(cluster="vl", version="1")
+def outer_local(x):
+    """a function of an ordinary (local runner) cluster whose body calls functions of the cluster "vc"""
+    REC.calls.append(("outer_local", x))
+    return [ga(x), gb(x + 1), ga.call_batch([{"x": x + 2}])]
+
+
 def fn_ref(fn, version=None):
     """reference to `fn` under an arbitrary version string (a non-current one decodes as external)"""
     if version is None:
